@@ -79,6 +79,9 @@ func c07render(r *rand.Rand, v *big.Int) string {
 			return fmt.Sprintf("::ffff:%x:%x", uint16(b[12])<<8|uint16(b[13]), uint16(b[14])<<8|uint16(b[15]))
 		}
 	}
+	if r.Intn(25) == 0 {
+		return a.String() + "%eth" + fmt.Sprint(r.Intn(3)) // a zone does not change the 128-bit address
+	}
 	switch r.Intn(4) {
 	case 0:
 		return a.String()
